@@ -308,7 +308,10 @@ struct Alpha {
     bool off_boundary;     // only offsets with off%B in {0,1,B-1}
     int smis, vmis;        // bit masks of buffer placement codes for scalar / vectored ops
     int cuts;              // 0 = every cut into 1..3 pieces (empty pieces included); 1 = 2 pieces cut at len/2;
-                           // 2 = 2 pieces at len/2 and 3 pieces at len/3, 2len/3
+                           // 2 = 2 pieces at len/2 and 3 pieces at len/3, 2len/3;
+                           // 3 = 1 piece, every 2-piece cut, 3-piece cuts with both cuts in {0,1,B-1,B,B+1,2B-1,2B,2B+1,len-1,len}
+    int kinds;             // bit mask of op kinds
+    bool eof1;             // lengths that run past EOF are represented by the one ending at EOF+1 (fixed-size composites: all clipped alike)
 };
 static bool len_ok(const Alpha& a, int l) {
     if (!a.len_boundary) return true;
@@ -318,20 +321,29 @@ static bool off_ok(const Alpha& a, int off) {
     if (!a.off_boundary || a.B < 4) return true;
     int m = off % a.B; return m <= 1 || m == a.B - 1;
 }
-template<class F> static void gen_ops_at(const Alpha& a, int off, F&& f) {
+static bool cut_boundary(int B, int len, int cpos) {
+    return cpos <= 1 || cpos >= len - 1 || cpos == B - 1 || cpos == B || cpos == B + 1 || cpos == 2 * B - 1 || cpos == 2 * B || cpos == 2 * B + 1;
+}
+template<class F> static void gen_ops_at(const Alpha& a, int size, int off, F&& f) {
     for (int len = 0; len <= a.lmax; len++) {
+        if (a.eof1 && off + len > size + 1) break;
         if (!len_ok(a, len)) continue;
         for (int kind = 0; kind < 4; kind++) {
+            if (!(a.kinds >> kind & 1)) continue;
             Op o; o.kind = kind; o.off = off; o.len = len; o.np = 1; o.c1 = o.c2 = 0;
             if (kind < 2) { for (int m = 0; m < 3; m++) if (a.smis >> m & 1) { o.mis = m; f(o); } continue; }
             for (int m = 0; m < 4; m++) if (a.vmis >> m & 1) {
                 o.mis = m;
-                if (a.cuts == 0) {
-                    if (m != 3) { o.np = 1; f(o); }
-                    o.np = 2; for (int c1 = 0; c1 <= len; c1++) { o.c1 = c1; f(o); }
-                    o.np = 3; for (int c1 = 0; c1 <= len; c1++) for (int c2 = c1; c2 <= len; c2++) { o.c1 = c1; o.c2 = c2; f(o); }
+                if (a.cuts == 0 || a.cuts == 3) {
+                    if (m != 3) { o.np = 1; o.c1 = o.c2 = 0; f(o); }
+                    o.np = 2; o.c2 = 0; for (int c1 = 0; c1 <= len; c1++) { o.c1 = c1; f(o); }
+                    o.np = 3;
+                    for (int c1 = 0; c1 <= len; c1++) for (int c2 = c1; c2 <= len; c2++) {
+                        if (a.cuts == 3 && !(cut_boundary(a.B, len, c1) && cut_boundary(a.B, len, c2))) continue;
+                        o.c1 = c1; o.c2 = c2; f(o);
+                    }
                 } else {
-                    o.np = 2; o.c1 = len / 2; f(o);
+                    o.np = 2; o.c1 = len / 2; o.c2 = 0; f(o);
                     if (a.cuts == 2) { o.np = 3; o.c1 = len / 3; o.c2 = 2 * len / 3; f(o); }
                 }
             }
@@ -343,7 +355,7 @@ struct OpCache {          // ops available at a given logical size (all offsets 
     explicit OpCache(const Alpha& a) : a(a) {}
     const std::vector<Op>& get(int size) {
         if ((int)by_size.size() <= size) { by_size.resize(size + 1); have.resize(size + 1, 0); }
-        if (!have[size]) { have[size] = 1; auto& v = by_size[size]; for (int off = 0; off < size; off++) if (off_ok(a, off)) gen_ops_at(a, off, [&](const Op& o) { v.push_back(o); }); }
+        if (!have[size]) { have[size] = 1; auto& v = by_size[size]; for (int off = 0; off < size; off++) if (off_ok(a, off)) gen_ops_at(a, size, off, [&](const Op& o) { v.push_back(o); }); }
         return by_size[size];
     }
 };
@@ -378,7 +390,7 @@ static void seq_rec(seqx::Ctx& c, const Subject& s, OpCache& oc, int depth, int 
 static void enum_seq(seqx::Ctx& c, const Subject& s, OpCache& oc, int n) { Op ops[3]; seq_rec(c, s, oc, 0, n, s.size0, ops); }
 // all single ops, generated on the fly (the every-cut alphabet is too large to cache)
 static void enum_single(seqx::Ctx& c, const Subject& s, const Alpha& a) {
-    for (int off = 0; off < s.size0; off++) { if (c.stop || g_done) return; if (off_ok(a, off)) gen_ops_at(a, off, [&](const Op& o) { leaf(c, s, &o, 1); }); }
+    for (int off = 0; off < s.size0; off++) { if (c.stop || g_done) return; if (off_ok(a, off)) gen_ops_at(a, s.size0, off, [&](const Op& o) { leaf(c, s, &o, 1); }); }
 }
 
 static Subject aligned_subject(int A, bool mem, int size) { Subject s; memset(&s, 0, sizeof s); s.type = 0; s.A = A; s.mem = mem; s.size0 = size; return s; }
@@ -390,36 +402,39 @@ static void section(seqx::Ctx& c, const char* name) {      // C16_COUNT=1: shard
 }
 static void seqx_enumerate(seqx::Ctx& c, bool thorough) {
 #ifdef C16_ALIGNED
-    struct Cfg { int A; bool mem; };
-    // 1. single operations, every offset / length / cut / buffer placement
+    // 1. single operations: every size 0..3A+1, offset inside, length 0..2A+2, buffer placement, and every cut into 1..3 pieces
+    //    (A=16: 3-piece cuts only at boundary positions)
     {
-        std::vector<Cfg> cfgs = {{2, false}, {4, false}, {8, false}, {8, true}};
-        if (thorough) { cfgs.push_back({16, true}); }
+        struct Cfg { int A; bool mem; int cuts; };
+        std::vector<Cfg> cfgs = {{2, false, 0}, {4, false, 0}, {8, false, 0}, {8, true, 0}};
+        if (thorough) { cfgs.push_back({16, false, 3}); cfgs.push_back({16, true, 3}); }
         for (auto& g : cfgs) {
-            Alpha a{g.A, 2 * g.A + 2, false, false, g.mem ? 7 : 3, g.mem ? 15 : 3, 0};
+            Alpha a{g.A, 2 * g.A + 2, false, false, g.mem ? 7 : 3, g.mem ? 15 : 3, g.cuts, 15, false};
             for (int S = 0; S <= 3 * g.A + 1; S++) enum_single(c, aligned_subject(g.A, g.mem, S), a);
             char nm[64]; snprintf(nm, sizeof nm, "single A=%d mem=%d", g.A, (int)g.mem); section(c, nm);
         }
     }
-    // 2. sequences of two operations
+    // 2. sequences of two operations: every size, offset, length (quick, A=8: boundary lengths; with align_memory also boundary sizes);
+    //    buffers at +1 (align_memory: aligned and +1); vectored ops as 2 pieces cut at len/2
     {
         struct SCfg { int A; bool mem; bool lenb; bool sizeb; };
         std::vector<SCfg> cfgs;
         if (!thorough) cfgs = {{2, false, false, false}, {4, false, false, false}, {8, false, true, false}, {8, true, true, true}};
         else cfgs = {{2, false, false, false}, {4, false, false, false}, {8, false, false, false}, {8, true, false, false}};
         for (auto& g : cfgs) {
-            Alpha a{g.A, 2 * g.A + 2, g.lenb, false, g.mem ? 3 : 2, g.mem ? 3 : 2, 1};
+            Alpha a{g.A, 2 * g.A + 2, g.lenb, false, g.mem ? 3 : 2, g.mem ? 3 : 2, 1, 15, false};
             OpCache oc(a);
             for (int S = 0; S <= 3 * g.A + 1; S++) { if (g.sizeb && !size_boundary(g.A, S)) continue; enum_seq(c, aligned_subject(g.A, g.mem, S), oc, 2); }
             char nm[64]; snprintf(nm, sizeof nm, "seq2 A=%d mem=%d", g.A, (int)g.mem); section(c, nm);
         }
     }
-    // 3. sequences of three operations (thorough)
+    // 3. sequences of three operations (thorough): A=2 complete; A=4 sizes 0..2A+1, lengths 0..A+2;
+    //    A=8 with align_memory: boundary sizes <= 2A+1, boundary offsets, boundary lengths <= A+2, vectored buffers aligned only
     if (thorough) {
-        struct SCfg { int A; bool mem; bool lenb; bool offb; bool sizeb; int smax; };
-        std::vector<SCfg> cfgs = {{2, false, false, false, false, 7}, {4, false, true, false, false, 9}, {8, true, true, true, true, 17}};
+        struct SCfg { int A; bool mem; int lmax; bool lenb; bool offb; bool sizeb; int smax; int vmis; };
+        std::vector<SCfg> cfgs = {{2, false, 6, false, false, false, 7, 2}, {4, false, 6, false, false, false, 9, 2}, {8, true, 10, true, true, true, 17, 1}};
         for (auto& g : cfgs) {
-            Alpha a{g.A, 2 * g.A + 2, g.lenb, g.offb, g.mem ? 3 : 2, g.mem ? 3 : 2, 1};
+            Alpha a{g.A, g.lmax, g.lenb, g.offb, g.mem ? 3 : 2, g.vmis, 1, 15, false};
             OpCache oc(a);
             for (int S = 0; S <= g.smax; S++) { if (g.sizeb && !size_boundary(g.A, S)) continue; enum_seq(c, aligned_subject(g.A, g.mem, S), oc, 3); }
             char nm[64]; snprintf(nm, sizeof nm, "seq3 A=%d mem=%d", g.A, (int)g.mem); section(c, nm);
@@ -430,20 +445,21 @@ static void seqx_enumerate(seqx::Ctx& c, bool thorough) {
     for (int unit : {3, 4}) for (int n : {2, 3}) { Subject s; memset(&s, 0, sizeof s); s.type = 1; s.A = unit; s.n = n; for (int i = 0; i < n; i++) s.sub[i] = unit; s.size0 = unit * n; subs.push_back(s); }
     for (int n : {2, 3}) { int combos = n == 2 ? 16 : 64; for (int code = 0; code < combos; code++) { Subject s; memset(&s, 0, sizeof s); s.type = 2; s.A = 3; s.n = n; int cc = code, tot = 0; for (int i = 0; i < n; i++) { s.sub[i] = cc % 4; cc /= 4; tot += s.sub[i]; } s.size0 = tot; if (tot) subs.push_back(s); } }
     for (int ss : {2, 4}) for (int n : {2, 3}) for (int k = 1; k <= (thorough ? 3 : 2); k++) { Subject s; memset(&s, 0, sizeof s); s.type = 3; s.A = ss; s.n = n; for (int i = 0; i < n; i++) s.sub[i] = ss * k; s.size0 = ss * k * n; subs.push_back(s); }
-    // 1. single operations: everything
-    for (auto& s : subs) { Alpha a{s.A, 2 * s.A + 2, false, false, 3, 3, 0}; enum_single(c, s, a); section(c, ("single " + subj_str(s)).c_str()); }
-    // 2. sequences of two
-    for (auto& s : subs) { Alpha a{s.A, 2 * s.A + 2, false, false, 2, 2, thorough ? 2 : 1}; OpCache oc(a); enum_seq(c, s, oc, 2); section(c, ("seq2 " + subj_str(s)).c_str()); }
-    // 3. sequences of three
+    // 1. single operations: every offset, length 0..2B+2, buffer placement, every cut into 1..3 pieces
+    for (auto& s : subs) { Alpha a{s.A, 2 * s.A + 2, false, false, 3, 3, 0, 15, false}; enum_single(c, s, a); section(c, ("single " + subj_str(s)).c_str()); }
+    // 2. sequences of two: every offset and length, buffers at +1, vectored ops as 2 pieces at len/2 (thorough: also 3 pieces)
+    for (auto& s : subs) { Alpha a{s.A, 2 * s.A + 2, false, false, 2, 2, thorough ? 2 : 1, 15, false}; OpCache oc(a); enum_seq(c, s, oc, 2); section(c, ("seq2 " + subj_str(s)).c_str()); }
+    // 3. sequences of three: pread/pwrite only, every offset, every length up to one byte past the end
+    //    (quick: composites of size <= 6; thorough: size <= 16)
     for (auto& s : subs) {
-        if (!thorough && s.size0 > 8) continue;
-        Alpha a{s.A, 2 * s.A + 2, s.size0 > 12, false, 2, 2, 1}; OpCache oc(a); enum_seq(c, s, oc, 3); section(c, ("seq3 " + subj_str(s)).c_str());
+        if (s.size0 > (thorough ? 16 : 6)) continue;
+        Alpha a{s.A, 2 * s.A + 2, false, false, 2, 2, 1, 3, true}; OpCache oc(a); enum_seq(c, s, oc, 3); section(c, ("seq3 " + subj_str(s)).c_str());
     }
 #endif
 }
 
 #ifdef C16_ALIGNED
-SEQX_MAIN("C16", "aligned", "every case = fresh new_aligned_file_adaptor(A, align_memory) over an in-memory recording underlay of size 0..3A+1 + a sequence of 1..3 ops (pread/pwrite/preadv/pwritev, offset inside the file, length 0..2A+2, user buffers aligned/+1/+A/2, iovecs of 1-3 pieces); single ops: complete (every cut incl. empty pieces) for (A,mem) in (2,0),(4,0),(8,0),(8,1)[,(16,1) thorough]; sequences use 2-piece iovecs cut at len/2: length 2 complete for A=2,4 (quick: A=8 with boundary lengths/sizes; thorough: A=8 complete), length 3 thorough only (A=2 complete, A=4 sizes<=9 boundary lengths, A=8/mem boundary offsets+lengths+sizes<=17); reference = byte vector; distinct = (align_memory, size aligned, #ops, per op: kind, end vs EOF, offset/end aligned, blocks spanned<=3, length class, pieces+empty pieces, buffer placement) [sequences: coarse per-op class]")
+SEQX_MAIN("C16", "aligned", "every case = fresh new_aligned_file_adaptor(A, align_memory) over an in-memory recording underlay + a sequence of 1..3 ops (pread/pwrite/preadv/pwritev) that start inside the file. Single ops, complete: (A,mem) in (2,0),(4,0),(8,0),(8,1) [thorough: +(16,0),(16,1)], size 0..3A+1, every offset, length 0..2A+2, buffers aligned/+1/+A/2/mixed, every cut into 1..3 iovec pieces incl. empty pieces (A=16: 3-piece cuts at boundary positions). Sequences of 2: every size/offset/length for A=2,4 (quick A=8: boundary lengths, mem=1 also boundary sizes; thorough A=8 complete, mem 0 and 1), 2-piece iovecs cut at len/2. Sequences of 3 (thorough): A=2 complete; A=4 sizes<=9, lengths<=6; A=8 mem=1 boundary sizes<=17/offsets/lengths<=10. Reference = plain byte vector. distinct = (align_memory, size aligned/empty, #ops, per op: kind, end vs EOF, offset/end aligned, blocks spanned<=3, length class, pieces+empty pieces, buffer placement) [sequences: per op kind, end vs EOF, fully aligned, empty]")
 #else
-SEQX_MAIN("C16", "composite", "every case = fresh new_fixed_size_linear_file(unit 3|4, n 2|3) / new_linear_file(sub-file sizes from {0,1,2,3}, n 2|3) / new_stripe_file(stripe 2|4, n 2|3, 1-2(3) stripes per sub-file) over in-memory sub-files + a sequence of 1..3 ops (offset inside, length 0..2*unit+2 clipped at the end); single ops complete with every iovec cut; sequences of 2 complete (2-piece [+3-piece thorough] iovecs), sequences of 3 complete for small composites (quick: size<=8; thorough: all, boundary lengths above size 12); reference = byte vector, layout = concatenation / RAID-0; distinct = (adaptor, #ops, per op: kind, end vs EOF, offset/end on sub-file or stripe boundary, sub-files spanned<=3, length class, pieces, buffer placement) [sequences: coarse per-op class]")
+SEQX_MAIN("C16", "composite", "every case = fresh new_fixed_size_linear_file(unit 3|4, n 2|3) / new_linear_file(every sub-file size vector over {0,1,2,3}, n 2|3, total>0) / new_stripe_file(stripe 2|4, n 2|3, 1..2 [thorough 3] stripes per sub-file) over in-memory sub-files + a sequence of 1..3 ops that start inside the file. Single ops, complete: every offset, length 0..2B+2 (clipped at the end), buffers aligned/+1, every cut into 1..3 iovec pieces incl. empty pieces. Sequences of 2: every offset/length, 4 kinds, 2-piece [thorough +3-piece] iovecs. Sequences of 3: pread/pwrite, every offset, every length up to EOF+1 (quick: size<=6; thorough: size<=16). Reference = plain byte vector; layout = concatenation / RAID-0. distinct = (adaptor, unit power of 2, #ops, per op: kind, end vs EOF, offset/end on sub-file|stripe boundary, sub-files spanned<=3, length class, pieces+empty pieces, buffer placement) [sequences: per op kind, end vs EOF, both on boundary, empty]")
 #endif
